@@ -344,6 +344,9 @@ def run(ctx):
     ctx.check(len(bf) == 1 and all(not fl["pub"] for fl in bf[0].get("fields", [])), "B2", "BytesRef:fields",
               "BytesRef's fields are private (no construction outside the defining module)", "",
               how="fields %s" % [(fl["name"], fl["pub"]) for fl in (bf[0]["fields"] if bf else [])], why=str(bf))
+    if ctx.tier == "thorough":
+        from .. import witness
+        witness.check(ctx, [("PrivBytesRef", "B2: a BytesRef cannot be constructed outside its module (private fields)")], rule="B2")
     rounding_kernel(ctx, F)
     return ctx.finish(
         "other",
